@@ -233,6 +233,12 @@ func (s *patternPropertyParameterRewriter) rewriteProperties(properties *cypher.
 	if len(propertyMap) == 0 {
 		*properties = nil
 		s.rewritten = true
+
+		// The rewritten query still takes every other parameter of the caller
+		if len(s.parameters) > 1 {
+			s.ensureRewrittenParameters()
+		}
+
 		return nil
 	}
 
